@@ -29,9 +29,12 @@ class AssignedName(pynames.AssignedName):
 
     def get_definition_location(self):
         """Returns a (module, lineno) tuple"""
-        if self.lineno is None and self.assignments:
-            with contextlib.suppress(AttributeError):
-                self.lineno = self.assignments[0].get_lineno()
+        if self.lineno is None:
+            # the first assignment that has a node: `x: int` records an assignment without one
+            for assignment in self.assignments:
+                with contextlib.suppress(AttributeError):
+                    self.lineno = assignment.get_lineno()
+                    break
         return (self.module, self.lineno)
 
     def invalidate(self):
